@@ -32,7 +32,8 @@ From TLV Require Import Base.Shape Base.PyList Base.Tensor Base.BigSum Model.Bas
   Proofs.TenalgProofsOuter Proofs.TenalgProofsSample Proofs.TenalgProofsSort Proofs.TenalgProofsEinsumVec Proofs.TenalgProofsMulti Proofs.TenalgProofsEinsumInner
   Proofs.TenalgProofsEinsumMttkrp Proofs.TenalgProofsEinsumKR Proofs.TenalgProofsEinsumOuter Proofs.TenalgProofsMultiGen Proofs.TenalgProofsMultiGen2 Proofs.TenalgProofsMemory
   Proofs.TenalgProofsTdotE Proofs.TenalgProofsTdotC Proofs.TenalgProofsEinsumMulti Proofs.TenalgProofsValidate Proofs.TenalgProofsTdotInner Proofs.TenalgProofsKRBcast Proofs.TenalgProofsNegMode Proofs.TenalgProofsNegMulti Proofs.TenalgProofsReject Proofs.TenalgProofsRepeat Proofs.TenalgProofsEq Proofs.TenalgProofsAnyModes Proofs.TenalgProofsW1
-  Proofs.TenalgProofsSrc Proofs.TenalgProofsDefault Proofs.TenalgProofsMemW1 Proofs.TenalgProofsTdotRepeat.
+  Proofs.TenalgProofsSrc Proofs.TenalgProofsDefault Proofs.TenalgProofsMemW1 Proofs.TenalgProofsTdotRepeat
+  Model.TenalgRaw Proofs.TenalgProofsInnerRaw.
 Import ListNotations.
 
 Definition ring_of {F} (Op : rops F) := ring_theory (r0 Op) (r1 Op) (radd Op) (rmul Op) (rsub Op) (ropp Op) (@eq F).
@@ -403,6 +404,41 @@ Corollary C02_inner_backends_agree : forall (F : Type) (Op : rops F), ring_of Op
   inner Op A B (Some (length sc)) = inner_e Op A B (Some (length sc)).
 Proof. exact @inner_backends_agree. Qed.
 Print Assumptions C02_inner_backends_agree.
+
+(* GENUINE DEFECT (round 9, known finding core_inner_n_modes_beyond_order): n_modes larger than the order of tensor1.  The core
+   code slices tensor1's shape with len(shape_t1) - n_modes, which Python counts from the end when negative, so the request is
+   ACCEPTED when tensor2's shape is the wrapped-around slice (a contraction over fewer modes than asked for), while the einsum
+   backend raises.  inner_as_is (Model/TenalgRaw.v) is the core code for every natural n_modes. *)
+Theorem C02_inner_core_n_modes_beyond_order_refuted :
+  exists (A B : tensor Z) (n : nat) (R : tensor Z),
+    ndim A < n /\ inner_as_is ZR A B n = Ok R /\ inner_e ZR A B (Some n) = Err.
+Proof. exact inner_core_n_modes_beyond_order_refuted. Qed.
+Print Assumptions C02_inner_core_n_modes_beyond_order_refuted.
+
+(* what does hold: within the order of tensor1 the core code IS the documented routine (so C02_inner_core / C02_inner_backends_agree
+   speak about the code) *)
+Theorem C02_inner_core_as_is_in_range_partial : forall (F : Type) (Op : rops F) (A B : tensor F) (n : nat),
+  n <= ndim A -> inner_as_is Op A B n = inner Op A B (Some n).
+Proof. exact @inner_as_is_in_range. Qed.
+Print Assumptions C02_inner_core_as_is_in_range_partial.
+
+(* beyond the order the documented routine and the einsum backend reject every request ... *)
+Theorem C02_inner_beyond_order_rejected : forall (F : Type) (Op : rops F) (A B : tensor F) (n : nat),
+  ndim A < n -> inner Op A B (Some n) = Err /\ inner_e Op A B (Some n) = Err.
+Proof. exact @inner_beyond_rejects. Qed.
+Print Assumptions C02_inner_beyond_order_rejected.
+
+(* ... and the core code rejects too unless tensor2's shape (cut at n_modes) is exactly the wrapped-around slice of tensor1's *)
+Theorem C02_inner_core_as_is_beyond_order_rejects_unless_wrapped : forall (F : Type) (Op : rops F) (A B : tensor F) (n : nat),
+  ndim A < n -> firstn n (shape B) <> skipn (2 * ndim A - n) (shape A) -> inner_as_is Op A B n = Err.
+Proof. exact @inner_as_is_beyond_rejects. Qed.
+Print Assumptions C02_inner_core_as_is_beyond_order_rejects_unless_wrapped.
+Example C02_inner_as_is_nonvacuous :
+  (let A := mk [2; 3] [0; 1; 2; 3; 4; 5]%Z in let B := mk [3; 2] [1; 2; 3; 4; 5; 6]%Z in
+   1 <= ndim A /\ inner_as_is ZR A B 1 = Ok (mk [2; 2] [13; 16; 40; 52]%Z)) /\
+  (let A := mk [2; 3] [0; 1; 2; 3; 4; 5]%Z in let B := mk [2] [1; 2]%Z in
+   ndim A < 3 /\ firstn 3 (shape B) <> skipn (2 * ndim A - 3) (shape A) /\ inner_as_is ZR A B 3 = Err).
+Proof. exact (conj inner_as_is_in_range_nonvacuous inner_as_is_beyond_rejects_nonvacuous). Qed.
 
 (* the nested sums of the generic einsum semantics over NoDup labels are one sum over the index space of the label sizes *)
 Theorem C02_einsum_sum_over_index_space : forall (F : Type) (Op : rops F), ring_of Op ->
